@@ -49,6 +49,7 @@ class _ComprehensionRewrite(ast.NodeTransformer):
         [E for x in S]        ->  __pyvc_listcomp__(lambda x: E, S)
         [E for x in S if C]   ->  __pyvc_listcomp__(lambda x: E, S, lambda x: C)
         (E for x in S [if C]) ->  __pyvc_genexp__(lambda x: E, S[, lambda x: C])
+        a in b / a not in b   ->  __pyvc_in__(a, b) / not __pyvc_in__(a, b)
     for comprehensions with exactly one `for`, a plain-name (or tuple of names) target and no
     `await`/walrus.  For real iterables the helpers evaluate the very same comprehension
     (pyvc/seqmodel.py), so the rewrite is semantics-preserving; it exists only so that a symbolic
@@ -94,6 +95,18 @@ class _ComprehensionRewrite(ast.NodeTransformer):
         self.count += 1
         return ast.copy_location(ast.Call(func=ast.Name(id=helper, ctx=ast.Load()), args=args, keywords=[]), node)
 
+    def visit_Compare(self, node):
+        """a in b / a not in b  ->  __pyvc_in__(a, b) / not __pyvc_in__(a, b)   (single comparison only);
+        for real operands the helper evaluates `a in b`"""
+        self.generic_visit(node)
+        if len(node.ops) == 1 and isinstance(node.ops[0], (ast.In, ast.NotIn)):
+            call = ast.Call(func=ast.Name(id="__pyvc_in__", ctx=ast.Load()), args=[node.left, node.comparators[0]], keywords=[])
+            self.count += 1
+            if isinstance(node.ops[0], ast.NotIn):
+                return ast.copy_location(ast.UnaryOp(op=ast.Not(), operand=call), node)
+            return ast.copy_location(call, node)
+        return node
+
     def visit_ListComp(self, node):
         return self._rewrite(node, "__pyvc_listcomp__")
 
@@ -119,6 +132,7 @@ def load_private(modname):
     mod.__pyvc_rewrites__ = rw.count
     mod.__dict__["__pyvc_listcomp__"] = seqmodel.listcomp
     mod.__dict__["__pyvc_genexp__"] = seqmodel.genexp
+    mod.__dict__["__pyvc_in__"] = seqmodel.contains
     sys.modules[name] = mod
     exec(code, mod.__dict__)  # noqa: S102
     return mod
